@@ -1,13 +1,15 @@
 """C12 — results are invariant under the choice of length unit"""
 from corr import kern_family
+from checks import _sym
 from oracles import c12 as oracle
 
-GEN = ["Const", "Tol"]
-LEAN_TARGETS = ["MagpyVerif.Props.C12"]
-PROPS = ["MagpyVerif.Props.C12"]
+GEN = ["Const", "Tol"] + _sym.GEN
+LEAN_TARGETS = ["MagpyVerif.Props.C12"] + _sym.LEAN_TARGETS
+PROPS = ["MagpyVerif.Props.C12"] + _sym.PROPS
 
 
 def run(ctx, model_ok):
+    _sym.run(ctx, ctx.scale(140, 4000))
     if ctx.driver_ok:
         st = kern_family.run_stream(ctx, ctx.scale(600, 30000))
         ctx.cov["evaluations"] = st["rows"]
